@@ -414,7 +414,7 @@ def _seq_worker(task):
         for i in range(0, len(succ), 500):
             chunk = succ[i:i + 500]
             batch.append((si, chunk, "[%s [%s] [%s]]" % (st.root, hist_txt, " ".join(op_item(fl, f, a) for fl, f, a, _ in chunk))))
-    res = run_batch(variant, DRV, [b[2] for b in batch], chunk=max(1, len(batch)), jobs=1, timeout=300)
+    res = run_batch(variant, DRV, [b[2] for b in batch], chunk=max(1, len(batch)), jobs=1, timeout=90)
     for (si, chunk, _), (status, text) in zip(batch, res):
         st = task[si]
         rec = recs[si]
